@@ -38,4 +38,11 @@ FIXED_BY_SUBJECT = {
  "fix: CHOICE in indefinite form treated a forwarded underrun as the alternative": [
    ('C05', 'resumed decode of an indefinite-length CHOICE leaked AttributeError'),
    ('C06', 'open truncated stream inside an indefinite-length CHOICE leaked AttributeError')],
+ "fix: empty SEQUENCE/SET decoded without a schema": [
+   ('C08', 'decode(b"0\\x00") returned (None, b""); nested empty containers leaked AttributeError'),
+   ('C16', 'empty SEQUENCE/SET decoded without a schema came back as None')],
+ "fix: empty indefinite-length explicit tag returned the NoValue sentinel": [
+   ('C08', 'a4 80 00 00 decoded into the NoValue placeholder instead of raising')],
+ "fix: length field beyond addressable size leaked OverflowError": [
+   ('C08', 'long-form length >= 2**63 leaked OverflowError from stream.read()')],
 }
